@@ -107,6 +107,22 @@ Proof.
     + eapply Rle_trans; [apply IH, H|apply Rmax_r].
 Qed.
 
+Lemma minR_in l : l <> [] -> In (minR l) l.
+Proof.
+  induction l as [|a l IH]; [congruence|]. intros _. destruct l as [|b l]; [left; reflexivity|].
+  rewrite minR_cons by discriminate. unfold Rmin. destruct (Rle_dec a (minR (b :: l))).
+  - left. reflexivity.
+  - right. apply IH. discriminate.
+Qed.
+Lemma minR_lb l x : In x l -> minR l <= x.
+Proof.
+  induction l as [|a l IH]; [intros []|]. destruct l as [|b l].
+  - intros [<-|[]]. cbn [minR]. lra.
+  - rewrite minR_cons by discriminate. intros [<-|H].
+    + apply Rmin_l.
+    + eapply Rle_trans; [apply Rmin_r|apply IH, H].
+Qed.
+
 (** * per-field record and relabellings *)
 Record wfield := mk_wfield { vevLow : R; vevHigh : R; width : R; offset : R }.
 Definition wf0 := mk_wfield 0 0 1 0.
